@@ -18,7 +18,18 @@ import (
 	"github.com/opsidian/parsley/text/terminal"
 )
 
-func init() { subcommands["eng"] = engCmd }
+func init() {
+	subcommands["eng"] = engCmd
+	subcommands["c12"] = c12Cmd
+}
+
+// the same case with the file alone (base offset 1) and at the case's offset
+func c12Cmd(t *Term) string {
+	alone := *t
+	alone.Args = append([]*Term{}, t.Args...)
+	alone.Args[3] = &Term{Kind: KNum, Num: 1}
+	return OT("C12", engCmd(&alone), engCmd(t))
+}
 
 type engStats struct {
 	active map[[2]int]int
